@@ -352,3 +352,18 @@ def born_reference(kind, rhos, povm_mats, schedules, true):
                 ps += [np.trace(e @ r).real for e in povm_mats[pj]]
         out.append(np.array(ps, dtype=np.float64))
     return out
+
+
+def small_branch(kind, rhos, schedules, true, lo=1e-8, hi=2e-3):
+    """QMPT only: the smallest m-process outcome probability `tr(M_x(ρ_i))` over the scheduled tester states that lies in
+    (lo, hi) — outcomes this unlikely make the circuit divide `hs_x ρ` by a tiny number; returns None if there is none"""
+    if kind != "qmpt":
+        return None
+    best = None
+    for sched in schedules:
+        si, _ = schedule_indices(kind, sched)
+        for ks in true.groups:
+            p = float(sum(np.trace(k @ rhos[si] @ k.conj().T).real for k in ks))
+            if lo < p < hi and (best is None or p < best):
+                best = p
+    return best
